@@ -72,6 +72,41 @@ print(json.dumps([[k, n, base64.b64encode(pickle.dumps(o, rng.choice([2, 4, 5]))
 """
 
 
+OTHER_SCHEMA_DUMPER = r"""
+import sys, json, base64, pickle, random
+sys.path.insert(0, sys.argv[1])
+import measured as m      # the core package only: this program declares, under names the unit modules also use, things of its own
+rng = random.Random(int(sys.argv[2]))
+P, U = m.Prefix, m.Unit
+out = []
+for name, symbol, base, exponent in (("kilo", "k", 10, 103), ("milli", "m", 10, -103), ("mebi", "Mi", 2, 121), ("hecto", "h", 10, 52)):
+    out.append(["prefix", name, P(base, exponent, name, symbol)])
+units = {}
+for name, symbol, dim in (("meter", "m", m.Mass), ("second", "s", m.Length), ("gram", "g", m.Time), ("pixel", "px", m.Number), ("byte", "B", m.Length)):
+    units[name] = U.define(dim, name, symbol)
+    out.append(["base-unit", name, units[name]])
+named = U.derive(units["meter"] / units["second"], "newton", "N")
+out.append(["unit", "newton", named])
+for _ in range(12):
+    a, c = rng.choice(sorted(units)), rng.choice(sorted(units))
+    out.append(["compound", None, units[a] ** rng.choice([2, -1, 1]) * units[c] * rng.choice([m.IdentityPrefix, out[0][2], out[1][2]])])
+out.append(["quantity", None, 5 * (out[0][2] * units["meter"])])
+print(json.dumps([[k, n, base64.b64encode(pickle.dumps(o, rng.choice([2, 4, 5]))).decode()] for k, n, o in out]))
+"""
+
+
+def other_schema_objects(ctx):
+    """pickles written by a program whose declarations differ from the unit modules' (an older schema, another plugin):
+    the same names and symbols stand for other prefixes and units there"""
+    try:
+        p = subprocess.run([sys.executable, "-B", "-c", OTHER_SCHEMA_DUMPER, os.path.join(core.REPO, "src"), str(ctx.seed)], capture_output=True, text=True, timeout=300,
+                           env=synth.child_env())
+        return json.loads(p.stdout)
+    except Exception:
+        ctx.count("other_schema_dumper_failed")
+        return []
+
+
 def foreign_objects(ctx):
     try:
         p = subprocess.run([sys.executable, "-B", "-c", FOREIGN_DUMPER, core.VERIF, str(ctx.seed)], capture_output=True, text=True, timeout=300, env=synth.child_env())
@@ -84,6 +119,7 @@ def foreign_objects(ctx):
 def run(ctx):
     rng = ctx.rng
     foreign = foreign_objects(ctx)
+    other = other_schema_objects(ctx)
     n = ctx.scale(64, 1500)
     steps = 80 if ctx.tier == "quick" else 150
     specs = []
@@ -93,6 +129,7 @@ def run(ctx):
         specs.append({"seed": ctx.seed * 100003 + i, "steps": steps, "modules": "all", "order": order if i % 2 else None,
                       "failpoints": True, "allow_dimension_define": (i % 4 == 3), "lookups_between_imports": (i % 3 != 0), "optimize": (i % 4 == 2),
                       "foreign_first": (rng.sample(foreign, min(len(foreign), 80)) if (foreign and i % 4 == 1) else None),
+                      "other_schema": ({"when": ["before-import", "after-import", "mid-history"][(i // 5) % 3], "blobs": other} if (other and i % 5 in (1, 3)) else None),
                       "force_failpoint_site": "Dimension.scale->conversions.translate" if i == 0 else None})
     with ThreadPoolExecutor(max_workers=14) as ex:
         results = list(ex.map(run_worker, specs))
